@@ -47,12 +47,19 @@ Definition known_pdiffs (s : structspec) : bool :=
   existsb is_pdiffs_defect (s_fields s) &&
   ok_struct (mk_sspec (s_id s) (s_from s) (s_to s) (s_eq s) (map repair_pdiffs (s_fields s))).
 
-(* witness for the class: a Repository value with pdiffs = Some(true); external fields hold their text *)
-Definition pdiffs_witness_table : ext_table :=
-  [(13, [100; 101; 98], Some [100; 101; 98]); (14, [104; 116; 116; 112; 58; 47; 47; 120; 47], Some [104; 116; 116; 112; 58; 47; 47; 120; 47])]%N.
-Definition pdiffs_witness_value : list (option (uval str)) :=
-  [None; Some (VExt [100; 101; 98]%N); Some (VExt [104; 116; 116; 112; 58; 47; 47; 120; 47]%N); Some (VList [[115%N]]);
-   Some (VList [[109%N]]); Some (VList []); None; None; Some (VBool true); None; None; None; None; None; None; None; None].
+(* witness for the class, computed from the table itself: pdiffs = Some(true), the other optional fields
+   absent, mandatory fields at a default value; external fields hold the text "x", which the witness
+   table accepts *)
+Definition default_uval (s : ser_id) : option (uval str) :=
+  match s with
+  | SStr => Some (VStr []) | SBool | SYesNo | SJaNee => Some (VBool true)
+  | SNum => Some (VNum 0) | SInt => Some (VInt 0%Z) | SJoinWs | SJoinNl => Some (VList [])
+  | SExt _ => Some (VExt [120%N]) | SUnrecognised => None
+  end.
+Definition pdiffs_witness_value (fs : list fieldspec) : list (option (uval str)) :=
+  map (fun f => if is_pdiffs_defect f then Some (VBool true) else if f_opt f then None else default_uval (f_ser f)) fs.
+Definition pdiffs_witness_table (fs : list fieldspec) : ext_table :=
+  flat_map (fun f => match f_de f with DExt i => [(i, [120%N], Some [120%N])] | _ => [] end) fs.
 
 (* every (serialiser, deserialiser) pair of the catalogue inverts on its value domain; external codecs by assumption ext_rt_law *)
 Theorem C16_codec_rt : forall (E : Type) (ext_print : N -> E -> str) (ext_parse : N -> str -> option E) (ext_dom : N -> E -> Prop) s d (v : uval E),
@@ -339,18 +346,18 @@ Print Assumptions C16_shipped.
 (* the known class is necessary: while apt-sources' PDiffs field has deserialize_yesno but the default serialiser, Some(true) prints as `true`, which its own reader rejects with `parsing field PDiffs` (when the struct is fixed the class is empty and this is trivially True) *)
 Theorem C16_pdiffs_class_witness : match find known_pdiffs all_structs with
   | None => True
-  | Some s => exists (v : list (option (uval str))) p,
-      x_to_lossy (s_fields s) v = Some p /\
-      x_from_lossy pdiffs_witness_table (s_fields s) p = DErr (Parsing [80; 68; 105; 102; 102; 115]%N)
+  | Some s => exists p,
+      x_to_lossy (s_fields s) (pdiffs_witness_value (s_fields s)) = Some p /\
+      x_from_lossy (pdiffs_witness_table (s_fields s)) (s_fields s) p = DErr (Parsing [80; 68; 105; 102; 102; 115]%N)
   end.
 Proof.
-  vm_compute. first [exact I | (exists pdiffs_witness_value; eexists; split; reflexivity)].
+  vm_compute. first [exact I | (eexists; split; reflexivity)].
 Qed.
 Check C16_pdiffs_class_witness : match find known_pdiffs all_structs with
   | None => True
-  | Some s => exists (v : list (option (uval str))) p,
-      x_to_lossy (s_fields s) v = Some p /\
-      x_from_lossy pdiffs_witness_table (s_fields s) p = DErr (Parsing [80; 68; 105; 102; 102; 115]%N)
+  | Some s => exists p,
+      x_to_lossy (s_fields s) (pdiffs_witness_value (s_fields s)) = Some p /\
+      x_from_lossy (pdiffs_witness_table (s_fields s)) (s_fields s) p = DErr (Parsing [80; 68; 105; 102; 102; 115]%N)
   end.
 Print Assumptions C16_pdiffs_class_witness.
 
